@@ -157,6 +157,20 @@ func readSeeker(c *harness.Ctx, rng *rand.Rand, class string, blob []byte, idx d
 				if len(idx.Chunks) > 0 { // exactly a chunk boundary
 					target = int64(idx.Chunks[rng.Intn(len(idx.Chunks))].Start)
 				}
+			case 4:
+				// somewhere inside a null chunk, if there is one
+				var nulls []int
+				for k, ch := range idx.Chunks {
+					if ch.ID == nullID {
+						nulls = append(nulls, k)
+					}
+				}
+				if len(nulls) > 0 {
+					ch := idx.Chunks[nulls[rng.Intn(len(nulls))]]
+					target = int64(ch.Start) + int64(rng.Intn(int(ch.Size)))
+				} else if L > 0 {
+					target = int64(rng.Intn(int(L)))
+				}
 			default:
 				if L > 0 {
 					target = int64(rng.Intn(int(L)))
@@ -196,6 +210,35 @@ func readSeeker(c *harness.Ctx, rng *rand.Rand, class string, blob []byte, idx d
 				events["failed-seek"] = true
 				// cursor unchanged: checked by the next read (and the invariant below)
 			}
+		} else if rng.Intn(10) == 0 {
+			// copy everything from the cursor to the end the way `cat` does (io.Copy uses WriteTo where a reader has one)
+			var sink bytes.Buffer
+			wn, err := io.Copy(&sink, ip)
+			hist = append(hist, fmt.Sprintf("Copy@%d->%d,%v", pos, wn, err))
+			if wn != int64(sink.Len()) || pos+wn > L || !bytes.Equal(sink.Bytes(), blob[pos:pos+wn]) {
+				c.Violation("copy-bytes", "io.Copy from position %d of %d delivered %d bytes (reported %d) that differ from the blob\n%v", pos, L, sink.Len(), wn, tail(hist))
+				return
+			}
+			_, injected := err.(dsu.ErrInjected)
+			switch {
+			case err == nil:
+				if pos <= L && pos+wn != L {
+					c.Violation("copy-short", "io.Copy from %d of %d stopped after %d bytes without error\n%v", pos, L, wn, tail(hist))
+					return
+				}
+			case injected:
+				events["store-error"] = true
+			default:
+				c.Violation("read-error", "io.Copy at %d of %d failed with a healthy store: %v\n%v", pos, L, err, tail(hist))
+				return
+			}
+			if wn > 0 {
+				events["copy-to-end"] = true
+				if a := chunkAt(idx, pos); a >= 0 && idx.Chunks[a].ID == nullID && int64(idx.Chunks[a].Start) != pos {
+					events["copy-from-inside-null-chunk"] = true
+				}
+			}
+			pos += wn
 		} else {
 			var n int
 			switch rng.Intn(6) {
@@ -498,6 +541,18 @@ func cliLeg(c *harness.Ctx, rng *rand.Rand, class string, blob []byte, idx desyn
 		if L > 0 {
 			off = rng.Intn(L + 1)
 			length = rng.Intn(L - off + 1)
+			if rng.Intn(3) == 0 {
+				length = 0 // to the end of the blob
+			}
+			if nullID := dsu.Sum(make([]byte, sz.Max)); rng.Intn(3) == 0 {
+				for _, ch := range idx.Chunks {
+					if ch.ID == nullID && rng.Intn(2) == 0 {
+						off = int(ch.Start) + rng.Intn(int(ch.Size))
+						length = 0
+						break
+					}
+				}
+			}
 		}
 		args := []string{"cat", "-s", store}
 		if k > 0 {
